@@ -240,6 +240,31 @@ fn blocks_big(t: &mut Tape, ctx: &mut Ctx) -> R {
     Ok(())
 }
 
+/// Blocks (built in memory) whose transaction count sits on both sides of every compact-size width:
+/// 252 / 253 / 254 and 65534 / 65535 / 65536 / 65537 minimal transactions under a generated header.
+fn block_count_boundaries(idx: u64, seed: u64, ctx: &mut Ctx) -> R {
+    const COUNTS: [usize; 7] = [252, 253, 254, 65_534, 65_535, 65_536, 65_537];
+    let n = COUNTS[idx as usize % COUNTS.len()];
+    let bytes = seeded_bytes(seed, idx, 600);
+    let mut t = Tape::new(&bytes);
+    let header = gen::gen_header(&mut t);
+    let tiny = Transaction { version: 2, lock_time: elements::LockTime::ZERO, input: vec![], output: vec![] };
+    let mut txdata = vec![tiny; n];
+    // a few of them are real transactions, at tape-chosen positions
+    for _ in 0..3 {
+        let k = t.below(n);
+        txdata[k] = gen::gen_tx(&mut t, &TxOpts { max_in: 2, max_out: 2, ..Default::default() });
+    }
+    let b = Block { header, txdata };
+    check_block_sizes(&b, ctx)?;
+    ctx.class(&format!("block-count-boundary:{}-transactions", n));
+    ctx.nontrivial(&(n, idx));
+    if ctx.wants_sample("block-count-boundary") {
+        ctx.sample("block-count-boundary", || json!({"transactions": n, "size": b.size(), "weight": b.weight()}));
+    }
+    Ok(())
+}
+
 pub fn property() -> Property {
     Property {
         id: "C12",
@@ -262,6 +287,7 @@ pub fn property() -> Property {
             Sub { name: "blocks", kind: Kind::Tape { max_len: 3000, quick: 180_000, thorough: 1_200_000, f: blocks } },
             Sub { name: "tx_sizes_big", kind: Kind::Tape { max_len: 3000, quick: 40_000, thorough: 1_000_000, f: tx_sizes_big } },
             Sub { name: "blocks_big", kind: Kind::Tape { max_len: 3000, quick: 40_000, thorough: 1_000_000, f: blocks_big } },
+            Sub { name: "block_count_boundaries", kind: Kind::Index { count: |t| t.pick(7, 28), exhaustive: false, f: block_count_boundaries } },
         ],
         known: vec![],
     }
